@@ -44,7 +44,10 @@ def run(chk):
     sw, res = chk.generate(sweep.c10_sweep_task, tasks)
     chk.traces += 0
     chk.extra['sweep_results_judged'] = sum(r['events'] for r in res)
+    sh_stream = common.stage_histories(chk, ntraces=32 if q else 1500, steps=10 if q else 40,
+                                       nvars_choices=[3, 4, 4], profile='stream', tag='st')
     chk.validate('TraceSweep', 'TraceSweep.cfg', sw)
+    chk.validate('TraceBDD', 'TraceBDD.cfg', sh_stream)
     common.sweep_canary(chk, sw[0], 'row.count', 'sat.count')
     chk.exhaustive = not q
     chk.assumptions = ['TLC + Json reader', 'adapter reads _succ faithfully',
